@@ -434,6 +434,11 @@ pub fn run_prop(
         shrink_steps: 0,
     };
     for part in &def.parts {
+        // parts for a payload type without a destructor run in the binary built with that payload
+        // (cargo feature pod_payload), every other part in the ordinary binary
+        if part.name.ends_with("_without_destructor") != cfg!(feature = "pod_payload") {
+            continue;
+        }
         if let Some(p) = only_part {
             if p != part.name {
                 continue;
